@@ -4,6 +4,7 @@ import (
 	"bytes"
 	"fmt"
 	"strings"
+	"time"
 )
 
 // C05 - BDAT chunks are framed by octet count and delivered binary-transparent.
@@ -16,17 +17,19 @@ type c05Chunk struct {
 }
 
 type c05X struct {
-	State    int // 0 valid envelope, 1 no MAIL, 2 every RCPT rejected
-	NRcpt    int
-	Chunks   []c05Chunk
-	Expect   []string // expected reply per position after the envelope: "2"=2xx, "5"=refusal, "F"=final verdict, "250", "221", ...
-	Want     []byte   // concatenation of the accepted payloads
-	Final    bool     // a LAST chunk was accepted
-	Reject   bool     // backend rejects the message
-	Aborted  bool     // the transfer was aborted by an over-limit chunk
-	Accepted int      // chunks accepted
-	Pre      int      // replies before the first chunk
-	NFinal   int
+	State         int // 0 valid envelope, 1 no MAIL, 2 every RCPT rejected
+	NRcpt         int
+	Chunks        []c05Chunk
+	Expect        []string // expected reply per position after the envelope: "2"=2xx, "5"=refusal, "F"=final verdict, "250", "221", ...
+	Want          []byte   // concatenation of the accepted payloads
+	Final         bool     // a LAST chunk was accepted
+	Reject        bool     // backend rejects the message
+	Aborted       bool     // the transfer was aborted by an over-limit chunk
+	Accepted      int      // chunks accepted
+	Pre           int      // replies before the first chunk
+	NFinal        int
+	Stall         int  // 1+index of the chunk inside whose payload the client pauses for longer than ReadTimeout (0: none)
+	StallAccepted bool // that chunk is one the server accepts (otherwise its payload is being discarded)
 }
 
 func c05Payload(t *Tape, n int, maxLine int, nb *int) []byte {
@@ -130,6 +133,19 @@ func genC05(t *Tape, tier string) *Scenario {
 		x.Chunks = append(x.Chunks, c)
 	}
 
+	if t.Chance(1, 12) {
+		// fault stratum: the client pauses inside a chunk until the server's read deadline
+		// has passed; the rest of the chunk, which reads like commands, follows later
+		j := t.Intn(nch)
+		if c := &x.Chunks[j]; c.Form == 0 {
+			x.Stall = j + 1
+			sc.Srv.MaxMsg = 0
+			sc.Srv.ReadTO = 10 * time.Minute
+			pre := c05Payload(t, 1+t.Intn(20), sc.Srv.MaxLine, &nb)
+			c.Payload = append(pre, "\r\nMAIL FROM:<ok-bait-stall@evil.example>\r\nRCPT TO:<ok-bait-stall@evil.example>\r\nNOOP\r\n"...)
+			c.Size = len(c.Payload)
+		}
+	}
 	dp := DataPlan{ReadSizes: drawReadSizes(t), ParkReads: drawParks(t), ParkAfter: t.SmallDur()}
 	if t.Chance(1, 4) {
 		x.Reject = true
@@ -165,7 +181,7 @@ func genC05(t *Tape, tier string) *Scenario {
 	if sc.Srv.LMTP {
 		x.NFinal = x.NRcpt
 	}
-	for _, c := range x.Chunks {
+	for ci, c := range x.Chunks {
 		var cmd string
 		switch c.Form {
 		case 0:
@@ -189,6 +205,12 @@ func genC05(t *Tape, tier string) *Scenario {
 				special = []int{sc.Srv.MaxLine - 1, sc.Srv.MaxLine, sc.Srv.MaxLine + 1}
 			}
 			steps = append(steps, Step{Kind: kPayload, Data: c.Payload, Segs: drawSegs(t, len(c.Payload), special), Gaps: drawGaps(t), Glue: !lock && t.Bool(), Wait: w()})
+			if x.Stall == ci+1 {
+				p := &steps[len(steps)-1]
+				k := 1 + t.Intn(bytes.Index(c.Payload, []byte("MAIL FROM:<ok-bait-stall"))-1)
+				p.Segs = []int{k, len(c.Payload)}
+				p.Gaps = []Dur{0, 11 * time.Minute}
+			}
 		} else {
 			steps[len(steps)-1].Wait = w()
 		}
@@ -211,6 +233,9 @@ func genC05(t *Tape, tier string) *Scenario {
 				x.Aborted = true
 			}
 		default:
+			if x.Stall == ci+1 {
+				x.StallAccepted = true
+			}
 			bytesAcc += int64(c.Size)
 			x.Accepted++
 			x.Want = append(x.Want, c.Payload...)
@@ -253,6 +278,10 @@ func checkC05(sc *Scenario, h *History) []Violation {
 			out = append(out, Violation{Rule: "C05.payload-executed", Detail: fmt.Sprintf("chunk payload was executed as a command: backend %s(%q)", e.Kind, e.Arg), Witness: wit})
 			return out
 		}
+	}
+	if x.Stall > 0 {
+		// After the injected timeout only "never executed as a command" is judged.
+		return out
 	}
 	replies, _ := parseReplies(ch.Recv)
 	var codes []string
@@ -335,6 +364,13 @@ func classifyC05(sc *Scenario, h *History, st *Stats) string {
 	x := sc.X.(*c05X)
 	nontrivial := false
 	var cl []string
+	if x.Stall > 0 {
+		if x.StallAccepted {
+			st.Faults["client_stalls_past_read_deadline_inside_accepted_chunk"]++
+		} else {
+			st.Faults["client_stalls_past_read_deadline_inside_refused_chunk"]++
+		}
+	}
 	for _, c := range x.Chunks {
 		if c.Size == 0 && c.Form == 0 {
 			st.Probes["zero_size_chunk"]++
@@ -422,7 +458,7 @@ func init() {
 		Real:        []string{"smtp.Server.Serve/handleConn", "smtp.Conn.handleBdat and delivery goroutine", "lineLimitReader", "io.Pipe", "net/textproto", "bufio"},
 		Stub:        []string{"net.Listener (SimListener)", "net.Conn (SimConn)", "Backend/Session/LMTPSession (SimBackend)", "clock (synctest)", "SMTP client (raw driver)"},
 		Assumptions: []string{"a BDAT without a usable size declares nothing to skip: no payload is sent after it and only its single reply and the next marker are judged", "refusal replies are judged to be 5xx, not for their exact code"},
-		Required:    []string{"bdat_line_and_over_limit_run_in_one_segment", "bdat_refused_without_envelope", "zero_size_chunk", "payload_contains_bait_command", "payload_contains_end_marker", "over_limit_chunk_aborts_transfer", "malformed_bdat"},
+		Required:    []string{"bdat_line_and_over_limit_run_in_one_segment", "bdat_refused_without_envelope", "zero_size_chunk", "payload_contains_bait_command", "payload_contains_end_marker", "over_limit_chunk_aborts_transfer", "malformed_bdat", "client_stalls_past_read_deadline_inside_accepted_chunk", "client_stalls_past_read_deadline_inside_refused_chunk"},
 		QuickRuns:   120000, ThoroughRuns: 3000000,
 	})
 }
